@@ -129,6 +129,7 @@ def run_case(ctx, kind_, rng, idx):
     if rng.random() < 0.5:
         scale = float(2.0 ** int(rng.integers(-60, 20)))
         NF = NF * scale
+    NF = mc.relayout(rng, NF)
     scheme = ['subtract', 'bottleneck'][int(rng.integers(0, 2))]
     num_paths = [np.inf, 1, 2, 3, 5][int(rng.integers(0, 5))]
     cutoff = [1 - 1e-10, 0.9, 0.6, 0.3][int(rng.integers(0, 4))]
